@@ -77,6 +77,22 @@ impl CountMinSketch {
     }
 }
 
+// ---------------------------------------------------------------------------
+// Verification hooks (cargo feature `verif-hooks`, off by default).
+// ---------------------------------------------------------------------------
+#[cfg(feature = "verif-hooks")]
+impl CountMinSketch {
+    pub(crate) fn verif_state(
+        &self,
+    ) -> (alloc::vec::Vec<alloc::vec::Vec<u8>>, alloc::vec::Vec<u64>, u64) {
+        (
+            self.rows.iter().map(|r| r.verif_bytes()).collect(),
+            alloc::vec::Vec::new(),
+            self.mask,
+        )
+    }
+}
+
 #[cfg(test)]
 mod test {
     use crate::lfu::tinylfu::sketch::CountMinSketch;
